@@ -96,7 +96,7 @@ CHECKS = [
     },
     {
         "id": 'C13',
-        "text": "Bounded-exhaustive exploration of parse_single_name_into_parts: every token sequence over a 16-token name alphabet (upper/lower/caseless words incl. a brace group holding a control word, special characters, escapes, separators, commas, unbalancing braces, bare backslash) up to length 5 (quick) / 6 (thorough), plus a 9-token word alphabet to length 7 / 9 (all case patterns of up to 4/5 words in all comma forms). Compared with a transcription of BibTeX's name rules (agrees with all 149 names of the repository's BibTeX-derived corpus in selftest) and a constructive oracle that knows each word's designed case; invalid names must raise InvalidNameError and, through SplitNameParts and parse_string, yield a MiddlewareErrorBlock retaining the entry.",
+        "text": "Bounded-exhaustive exploration of parse_single_name_into_parts: every token sequence over a 16-token name alphabet (upper/lower/caseless words incl. a brace group holding a control word, special characters, escapes, separators, commas, unbalancing braces, bare backslash) up to length 5 (quick) / 6 (thorough), plus a 9-token word alphabet to length 7 / 8 (all case patterns of up to 4 words in all comma forms). Compared with a transcription of BibTeX's name rules (agrees with all 149 names of the repository's BibTeX-derived corpus in selftest) and a constructive oracle that knows each word's designed case; invalid names must raise InvalidNameError and, through SplitNameParts and parse_string, yield a MiddlewareErrorBlock retaining the entry.",
         "note": 'Words with table-driven case are outside the alphabet; names with an empty von-Last section are judged for word conservation only.',
         "technique": "bounded-exhaustive model checking of the implementation against a validated transcription of BibTeX's algorithm (two-oracle rule)",
     },
